@@ -60,6 +60,7 @@ type output struct {
 	MapSites    int `json:"map_sites"`
 	Globals     int `json:"globals"`
 	SyncSeams   int `json:"sync_seams"`
+	EnvSeams    int `json:"env_seams"`
 	WriteYields int `json:"write_yield_sites"`
 	RaceVars    int `json:"race_tracked_variables"`
 	TouchSites  int `json:"access_sites"`
@@ -214,7 +215,8 @@ func main() {
 			}
 			var patches []patch
 			usesSimrt := false
-			syncName := "" // local name of the sync import when a use was redirected
+			syncName := ""                   // local name of the sync import when a use was redirected
+			keepAlive := map[string]string{} // import name -> declaration that keeps it referenced
 			// enclosing function names for site descriptions
 			var funcStack []string
 			curFunc := func() string {
@@ -337,7 +339,18 @@ func main() {
 							case "sync/atomic":
 								out.Audit = append(out.Audit, auditItem{"pkg", posOf(x.Pos()), path + "." + sel})
 								pkgSync = true
-							case "time", "math/rand", "math/rand/v2", "crypto/rand", "os", "os/exec", "os/signal", "runtime", "unsafe", "context", "net", "io/ioutil", "syscall":
+							case "time", "os", "math/rand", "math/rand/v2":
+								// latent seams for the process environment: the
+								// simulator decides what these return
+								if repl, ok := envSeams[path+"."+sel]; ok && !coarse {
+									patches = append(patches, patch{off: tf.Offset(x.Pos()), end: tf.Offset(x.End()), text: "simrt." + repl})
+									out.EnvSeams++
+									usesSimrt = true
+									keepAlive[id.Name] = envKeep[path]
+								} else {
+									out.Audit = append(out.Audit, auditItem{"pkg", posOf(x.Pos()), path + "." + sel})
+								}
+							case "crypto/rand", "os/exec", "os/signal", "runtime", "unsafe", "context", "net", "io/ioutil", "syscall":
 								out.Audit = append(out.Audit, auditItem{"pkg", posOf(x.Pos()), path + "." + sel})
 							case "maps":
 								switch sel {
@@ -374,6 +387,9 @@ func main() {
 			if syncName != "" {
 				// every use of the sync import may have been redirected: keep it referenced
 				patches = append(patches, patch{off: tf.Size(), text: "\nvar _ " + syncName + ".Locker\n"})
+			}
+			for name, decl := range keepAlive {
+				patches = append(patches, patch{off: tf.Size(), text: "\nvar _ " + name + "." + decl + "\n"})
 			}
 			data, err := os.ReadFile(fname)
 			if err != nil {
@@ -492,6 +508,22 @@ func writeYields(list []ast.Stmt, tf *token.File, patches *[]patch, yieldID *int
 		*usesSimrt = true
 	}
 }
+
+// envSeams: functions of the process environment that are redirected to the
+// simulator's versions.
+var envSeams = map[string]string{
+	"time.Now": "TimeNow", "time.Since": "TimeSince",
+	"os.Getenv": "Getenv", "os.LookupEnv": "LookupEnv", "os.Getpid": "Getpid", "os.Getwd": "Getwd",
+	"os.Hostname": "Hostname", "os.Executable": "Executable",
+	"math/rand.Int": "RandInt", "math/rand.Intn": "RandIntn", "math/rand.Int63": "RandInt63", "math/rand.Int31n": "RandInt31n",
+	"math/rand.Uint32": "RandUint32", "math/rand.Uint64": "RandUint64", "math/rand.Float64": "RandFloat64",
+	"math/rand/v2.Int": "RandInt", "math/rand/v2.IntN": "RandIntN", "math/rand/v2.Uint32": "RandUint32",
+	"math/rand/v2.Uint64": "RandUint64", "math/rand/v2.Float64": "RandFloat64",
+}
+
+// envKeep: a type of each package, to keep the import referenced when every
+// use in a file was redirected.
+var envKeep = map[string]string{"time": "Duration", "os": "FileMode", "math/rand": "Source", "math/rand/v2": "Source"}
 
 // syncType: the variable is itself a synchronisation object (or an atomic).
 func syncType(t types.Type) bool {
